@@ -32,8 +32,9 @@ CONSTANTS
   Vals(_, _),   \* Vals(N, n): shift values (quarter samples) for an n-entry shift array
   Fixed         \* TRUE: repaired zero loop; FALSE: loop of the current tree
 
-VARIABLES phase, N, ssh, shsh, S, out
-vars == <<phase, N, ssh, shsh, S, out>>
+VARIABLES phase, N, ssh, shsh, S, out,
+          prev      \* layout (shift shape) of the previous call of the session, NoPrev for a first call
+vars == <<phase, N, ssh, shsh, S, out, prev>>
 
 Meta0 == [t0 |-> 0, per |-> 4, cls |-> "Signal", dtype |-> "in"]
 
@@ -55,13 +56,25 @@ Op(n, sh, P, s) ==
 
 Init == /\ phase = "cfg"
         /\ N \in Ns /\ ssh \in SShapes /\ shsh \in ShiftShapes(ssh)
-        /\ S = <<>> /\ out = <<>>
-Next == /\ phase = "cfg"
+        /\ S = <<>> /\ out = <<>> /\ prev = NoPrev
+Call == /\ phase = "cfg"
         /\ phase' = "done"
         /\ LET P == PadT(shsh, Len(ssh))
            IN /\ S' \in [Elems(P) -> Vals(N, Cardinality(Elems(P)))]
               /\ out' = Op(N, ssh, P, S')
-        /\ UNCHANGED <<N, ssh, shsh>>
+        /\ UNCHANGED <<N, ssh, shsh, prev>>
+\* a second call on a like signal: the same values on another broadcast layout
+Relayout ==
+  /\ phase = "done" /\ prev = NoPrev
+  /\ \E t \in ShiftShapes(ssh) :
+       LET P == PadT(shsh, Len(ssh))
+           P2 == PadT(t, Len(ssh))
+       IN /\ P2 # P /\ Cardinality(Elems(P2)) = Cardinality(Elems(P))
+          /\ shsh' = t /\ prev' = shsh
+          /\ S' = Relaid(S, P, P2)
+          /\ out' = Op(N, ssh, P2, S')
+  /\ UNCHANGED <<phase, N, ssh>>
+Next == Call \/ Relayout
 Spec == Init /\ [][Next]_vars
 
 P0 == PadT(shsh, Len(ssh))
